@@ -88,8 +88,9 @@ pub fn render_doc(d: &Doc) -> (String, BTreeMap<String, usize>) {
     match d.format {
         Format::Md => {
             let dflt = cfg_flow(&d.defaults);
-            if d.total_timeout_ns.is_some() || !dflt.is_empty() || !d.prepend.is_empty() || !d.append.is_empty() || d.shell.is_some() {
+            if d.total_timeout_ns.is_some() || !dflt.is_empty() || !d.prepend.is_empty() || !d.append.is_empty() || d.shell.is_some() || d.loose_front_matter {
                 lines.push("---".into());
+                let from = lines.len();
                 if let Some(sh) = &d.shell {
                     lines.push(format!("shell: {}", yq(sh)));
                 }
@@ -105,6 +106,20 @@ pub fn render_doc(d: &Doc) -> (String, BTreeMap<String, usize>) {
                 if !d.append.is_empty() {
                     lines.push(format!("append: [{}]", d.append.iter().map(|p| yq(p)).collect::<Vec<_>>().join(", ")));
                 }
+                if d.loose_front_matter {
+                    // a blank line before, between and after the keys
+                    let mut keys: Vec<String> = lines.drain(from..).collect();
+                    if keys.is_empty() {
+                        keys.push("defaults: {}".into());
+                    }
+                    lines.push("".into());
+                    for k in keys {
+                        lines.push(k);
+                        lines.push("".into());
+                    }
+                    lines.push("# a comment".into());
+                    lines.push("".into());
+                }
                 lines.push("---".into());
                 lines.push("".into());
             }
@@ -114,10 +129,11 @@ pub fn render_doc(d: &Doc) -> (String, BTreeMap<String, usize>) {
                 lines.push(format!("## {}", t.title));
                 lines.push("".into());
                 let c = cfg_flow(&t.cfg);
+                let tail = if d.fence_trailing_space { " " } else { "" };
                 if c.is_empty() {
-                    lines.push("```scrut".into());
+                    lines.push(format!("```scrut{}", tail));
                 } else {
-                    lines.push(format!("```scrut {{{}}}", c.join(", ")));
+                    lines.push(format!("```scrut {{{}}}{}", c.join(", "), tail));
                 }
                 for (i, l) in t.expr.split('\n').enumerate() {
                     if i == 0 {
